@@ -10,6 +10,7 @@ import (
 	"time"
 	"unicode/utf8"
 
+	eth2client "github.com/attestantio/go-eth2-client"
 	"github.com/attestantio/go-eth2-client/api"
 	"github.com/attestantio/go-eth2-client/spec/phase0"
 	nullmetrics "github.com/attestantio/vouch/services/metrics/null"
@@ -17,6 +18,7 @@ import (
 	e2types "github.com/wealdtech/go-eth2-types/v2"
 	e2wtypes "github.com/wealdtech/go-eth2-wallet-types/v2"
 	"github.com/wealdtech/go-majordomo"
+	"pgregory.net/rapid"
 )
 
 // Blob is text that may not be valid UTF-8; it survives a JSON round trip.
@@ -237,6 +239,47 @@ func (domainProvider) GenesisDomain(_ context.Context, t phase0.DomainType) (pha
 	copy(d[:], t[:])
 	d[31] = 0x16
 	return d, nil
+}
+
+// ---------------------------------------------------------------------------
+// error kinds of the client library
+
+// errKinds are the kinds of error go-eth2-client returns to vouch: a plain error, an
+// *api.Error for a non-2xx answer (bare, as SignedBeaconBlock returns it, or joined to a
+// context message, as most other calls do), a context error, or the client's state errors.
+var errKinds = []string{"error", "error", "api400", "api404", "api404", "api404-joined", "api500", "api503", "api503-joined",
+	"ctx-canceled", "ctx-deadline", "not-active", "not-synced"}
+
+func genErrKind(t *rapid.T, label string) string { return rapid.SampledFrom(errKinds).Draw(t, label) }
+
+// clientError builds the error of the given kind ("" and unknown kinds are plain errors).
+func clientError(kind string, what string) error {
+	apiErr := func(code int, body string) error {
+		return &api.Error{Method: "GET", Endpoint: "/eth/" + what, StatusCode: code, Data: []byte(body)}
+	}
+	switch kind {
+	case "api400":
+		return apiErr(400, `{"code":400,"message":"BAD_REQUEST: invalid request"}`)
+	case "api404":
+		return apiErr(404, `{"code":404,"message":"NOT_FOUND: not found"}`)
+	case "api404-joined":
+		return errors.Join(errors.New("failed to request "+what), apiErr(404, `{"code":404,"message":"NOT_FOUND"}`))
+	case "api500":
+		return apiErr(500, `{"code":500,"message":"INTERNAL_SERVER_ERROR"}`)
+	case "api503":
+		return apiErr(503, "")
+	case "api503-joined":
+		return errors.Join(errors.New("failed to request "+what), apiErr(503, `{"code":503,"message":"syncing"}`))
+	case "ctx-canceled":
+		return errors.Join(errors.New("failed to call GET endpoint"), context.Canceled)
+	case "ctx-deadline":
+		return errors.Join(errors.New("failed to call GET endpoint"), context.DeadlineExceeded)
+	case "not-active":
+		return eth2client.ErrNotActive
+	case "not-synced":
+		return eth2client.ErrNotSynced
+	}
+	return errors.New("scripted failure of " + what)
 }
 
 // ---------------------------------------------------------------------------
